@@ -102,7 +102,7 @@ pub fn run(ctx: &mut Ctx) {
     for (n, ok) in r2::selftest() {
         ctx.selftest(&n, ok);
     }
-    ctx.require(&["outcome_ok", "outcome_err", "boundary_key_accepted", "boundary_key_rejected", "carry_chain_key"]);
+    ctx.require(&["outcome_ok", "outcome_err", "boundary_key_accepted", "boundary_key_rejected", "carry_chain_key", "boundary_key_through_other_decoder"]);
     let entries = [
         "sm2.verify", "sm2.decrypt:c1c2c3_uncompressed", "sm2.decrypt:c1c2c3_compressed", "sm2.decrypt:c1c3c2_uncompressed", "sm2.decrypt:c1c3c2_compressed", "sm2.decrypt_asn1", "sm2.Sm2PublicKey::new", "sm2.Sm2PublicKey::from_hex_string", "sm2.Sm2PrivateKey::new", "sm2.Sm2PrivateKey::from_hex_string", "sm2.from_pkcs8_der", "sm2.from_pkcs8_pem", "sm2.from_public_key_der", "sm2.from_public_key_pem", "sm2.FromStr", "sm2.kdf", "sm2.compute_za",
         "sm4.Sm4Cipher::new", "sm4.Sm4Cipher::encrypt", "sm4.Sm4Cipher::decrypt", "sm4.Sm4CipherMode::new", "sm4.mode.decrypt:cbc", "sm4.mode.decrypt:cfb", "sm4.mode.decrypt:ofb", "sm4.mode.decrypt:ctr", "sm4.mode.encrypt:cbc", "sm4.mode.encrypt:ctr",
@@ -368,6 +368,35 @@ pub fn run(ctx: &mut Ctx) {
                 call(ctx, "sm2.encrypt(boundary key)", "regular-key", &vb, || lpk.encrypt(b"x", false, model(Order::C1C3C2)).is_ok());
             }
             o => ctx.violation(&format!("sm2.Sm2PrivateKey::new:d={}:{}", name, o.class()), json!({"d": name})),
+        }
+        // the same scalar through the OTHER private-key decoders (hex, PKCS#8 with and without an embedded public key, whose
+        // point is [d mod n]G or, when that is infinity, G): whatever a decoder accepts must sign within the step limit
+        if !name.contains('^') || name.ends_with("-1") && v.bits() % 64 == 0 {
+            use pkcs8::DecodePrivateKey;
+            let dm = &v % &c.n;
+            let pubpt = r2::mul(&dm, &r2::g()).unwrap_or_else(|| r2::g().unwrap());
+            let docs: Vec<(&str, Vec<u8>)> = vec![
+                ("pkcs8_with_public_key", crate::refs::der::pkcs8_encode(&vb, Some(&r2::encode(&pubpt, false)))),
+                ("pkcs8_without_public_key", crate::refs::der::pkcs8_encode(&vb, None)),
+            ];
+            let mut decoded: Vec<(String, Sm2PrivateKey)> = vec![];
+            ctx.eval();
+            if let Outcome::Ret(Ok(k)) = guard(|| Sm2PrivateKey::from_hex_string(&hex::encode(vb))) {
+                decoded.push(("hex".into(), k));
+            }
+            for (dn, doc) in &docs {
+                ctx.eval();
+                match guard(|| Sm2PrivateKey::from_pkcs8_der(doc)) {
+                    Outcome::Ret(Ok(k)) => decoded.push((dn.to_string(), k)),
+                    Outcome::Ret(Err(_)) => {}
+                    o => ctx.violation(&format!("sm2.from_pkcs8_der:boundary d={}:{}", name, o.class()), json!({"d": name, "doc": dn})),
+                }
+            }
+            for (dn, k) in decoded {
+                ctx.class("boundary_key_through_other_decoder");
+                sm2x::rng_prepare(&[]);
+                call(ctx, "sm2.sign(boundary key)", &format!("d={} via {}", name, dn), &vb, || k.sign(None, b"boundary").is_ok());
+            }
         }
     }
 
